@@ -664,7 +664,8 @@ class Rewriter:
         # R12: thread the ghost heap through the calls that take it
         thread = lambda extra: (lambda m_, a: None if (a and a[0] == 'hs') else '%s(%s)' % (m_.group(0).rstrip('(').rstrip(), ', '.join(extra + a)))
         for name in ['reserve', 'cap', 'capacity', 'append_elements', 'extend_from_slice_copy_unchecked', 'extend_from_slice_copy', 'extend_from_slice',
-                     'set_len', 'push', 'extend', 'insert', 'remove', 'swap_remove', 'split_off', 'pop', 'append']:
+                     'set_len', 'push', 'extend', 'insert', 'remove', 'swap_remove', 'split_off', 'pop', 'append',
+                     'reserve_exact', 'try_reserve', 'try_reserve_exact', 'shrink_to_fit', 'extend_with', 'resize']:
             b = self.map_calls(b, r'(?<![\w:])[a-z_][\w.]*\.%s' % name, thread(['hs']), 'R12:thread-heap')
         for name in ['VecM::with_capacity_in', 'RawVecM::with_capacity_in']:
             b = self.map_calls(b, r'\b%s' % name, thread(['hs']), 'R12:thread-heap')
@@ -1046,6 +1047,8 @@ class Rewriter:
         b = self.sub('R8:size_of-usize', r'\bmem::size_of::<\s*usize\s*>\(\)', '8usize', b)
         b = self.sub('R8:size_of-T', r'\bmem::size_of::<\s*T\s*>\(\)', 'ELEM_SIZE()', b)
         b = self.sub('R8:align_of-T', r'\bmem::align_of::<\s*T\s*>\(\)', 'ELEM_ALIGN()', b)
+        # any other type's size: an arbitrary value rustc could produce
+        b = self.sub('R8:size_of-other', r'\b(?:core::)?mem::size_of::<(?:[^<>()]|<[^<>]*>)*>\(\)', 'SIZE_OF_OTHER()', b)
         b = self.map_calls(b, r'\bLayout::array::<\s*T\s*>', lambda m, a: 'layout_array_T(%s)' % a[0], 'R8:layout-array')
         b = self.sub('R8:isize-max', r'::core::isize::MAX', 'isize::MAX', b)
         b = self.map_calls(b, r'\bcmp::max', lambda m, a: 'umax_exec(%s, %s)' % (a[0], a[1]), 'R8:cmp-max')
